@@ -151,7 +151,9 @@ theorem xencEntries_map (kids : List (SN τ)) (n : Tok) (es : List DN) :
     cases e with
     | mk en ek ev =>
       rw [xencEntries.eq_def]
-      simp only [List.map_cons, ← ih, DN.kids]
+      simp only [List.map_cons]
+      rw [ih]
+      rfl
 
 /-- the reader's treatment of one name among the elements `xs` of a parent -/
 def xdecOne (kids : List (SN τ)) (fuel : Nat) (xs : List X) (n : Tok) : Option DN :=
@@ -177,5 +179,217 @@ theorem xdecKids_succ (kids : List (SN τ)) (fuel : Nat) (xs : List X) :
     xdecKids kids (fuel + 1) xs = ((xs.map elName).eraseDups).mapM (xdecOne kids fuel xs) := by
   rw [xdecKids.eq_def]
   rfl
+
+
+/-! ### well-formed data for the XML writer: sibling names differ, a leaf has one value, a leaf-list and a
+    list are not empty (an empty one writes no element at all), list entries are named by their key -/
+
+def keyOf (key : Tok) (ek : List DN) : Option Tok :=
+  (ek.find? fun (d : DN) => d.name = key).bind fun d => d.vals.head?
+
+mutual
+def xwfKids (kids : List (SN τ)) : List DN → Prop
+  | [] => True
+  | d :: r =>
+    (∀ e ∈ r, e.name ≠ d.name) ∧
+    (match lookup d.name (dataKids kids), d with
+     | some (.container _ _ ck), .mk _ dk vals => vals = [] ∧ xwfKids ck dk
+     | some (.list _ keys _ _ _ ck), .mk _ es vals => vals = [] ∧ es ≠ [] ∧ xwfEntries ck (keys.headD []) es
+     | some (.leaf ..), .mk _ dk vals => dk = [] ∧ ∃ v, vals = [v]
+     | some (.leafList ..), .mk _ dk vals => dk = [] ∧ vals ≠ []
+     | _, _ => False) ∧ xwfKids kids r
+def xwfEntries (kids : List (SN τ)) (key : Tok) : List DN → Prop
+  | [] => True
+  | .mk en ek ev :: r => ev = [] ∧ xwfKids kids ek ∧ keyOf key ek = some en ∧ xwfEntries kids key r
+end
+
+mutual
+def dDepth : DN → Nat
+  | .mk _ ks _ => 1 + dDepthL ks
+def dDepthL : List DN → Nat
+  | [] => 0
+  | d :: r => max (dDepth d) (dDepthL r)
+end
+
+theorem dDepth_le_of_mem (ds : List DN) (d : DN) (h : d ∈ ds) : dDepth d ≤ dDepthL ds := by
+  induction ds with
+  | nil => cases h
+  | cons a r ih =>
+    rw [dDepthL]
+    rcases List.mem_cons.mp h with rfl | hr
+    · omega
+    · have := ih hr; omega
+
+theorem xblock_named (kids : List (SN τ)) (d : DN) : ∀ x ∈ xblock kids d, elName x = d.name := by
+  intro x hx
+  cases d with
+  | mk n dk vals =>
+    unfold xblock at hx
+    simp only [DN.name] at hx ⊢
+    split at hx
+    · rename_i h; injection h with h1 h2 h3; subst h1
+      simp at hx; rw [hx]; rfl
+    · rename_i h; injection h with h1 h2 h3; subst h1
+      rw [xencEntries_map] at hx
+      simp only [List.mem_map] at hx
+      obtain ⟨e, _, rfl⟩ := hx; rfl
+    · rename_i h; injection h with h1 h2 h3; subst h1
+      simp only [List.mem_map] at hx
+      obtain ⟨v, _, rfl⟩ := hx; rfl
+    · rename_i h; injection h with h1 h2 h3; subst h1
+      simp only [List.mem_map] at hx
+      obtain ⟨v, _, rfl⟩ := hx; rfl
+    · cases hx
+
+
+theorem xwf_head (kids : List (SN τ)) (d : DN) (r : List DN) (h : xwfKids kids (d :: r)) :
+    (∀ e ∈ r, e.name ≠ d.name) ∧ xblock kids d ≠ [] ∧ xwfKids kids r := by
+  rw [xwfKids.eq_def] at h
+  obtain ⟨h1, h2, h3⟩ := h
+  refine ⟨h1, ?_, h3⟩
+  cases d with
+  | mk n dk vals =>
+    unfold xblock
+    simp only [DN.name] at h2 ⊢
+    cases hl : lookup n (dataKids kids) with
+    | none => simp [hl] at h2
+    | some sn =>
+      cases sn with
+      | container a b c => simp
+      | list a b c e g ck =>
+        simp only [hl] at h2
+        simp only [xencEntries_map]; simp [h2.2.1]
+      | leaf a b c e =>
+        simp only [hl] at h2
+        obtain ⟨_, v, hv⟩ := h2; simp [hv]
+      | leafList a b c e =>
+        simp only [hl] at h2
+        simp [h2.2]
+      | choice a b c e => simp [hl] at h2
+      | case a b => simp [hl] at h2
+
+theorem blocks_of_wf (kids : List (SN τ)) (ds : List DN) (h : xwfKids kids ds) : Blocks (xblock kids) ds := by
+  induction ds with
+  | nil => exact ⟨fun d hd => (nomatch hd), fun d hd => (nomatch hd), List.nodup_nil⟩
+  | cons d r ih =>
+    obtain ⟨h1, h2, h3⟩ := xwf_head kids d r h
+    have b := ih h3
+    refine ⟨fun e he => xblock_named kids e, ?_, ?_⟩
+    · intro e he
+      rcases List.mem_cons.mp he with rfl | hr
+      · exact h2
+      · exact b.nonempty e hr
+    · simp only [List.map_cons, List.nodup_cons, List.mem_map, not_exists, not_and]
+      exact ⟨fun e he heq => h1 e he heq, b.nodup⟩
+
+theorem mapM_map_some {α β} (l : List α) (g : α → β) (f : β → Option α) (h : ∀ a ∈ l, f (g a) = some a) :
+    (l.map g).mapM f = some l := by
+  induction l with
+  | nil => rfl
+  | cons a r ih =>
+    simp only [List.map_cons, List.mapM_cons, h a (by simp)]
+    rw [ih (fun x hx => h x (by simp [hx]))]
+    rfl
+
+/-- from the nodes one by one to the whole list of children -/
+theorem xdec_whole (kids : List (SN τ)) (ds : List DN) (f : Nat) (hw : xwfKids kids ds)
+    (hall : ∀ d ∈ ds, xdecOne kids f (xencKids kids ds) d.name = some d) :
+    xdecKids kids (f + 1) (xencKids kids ds) = some ds := by
+  rw [xdecKids_succ]
+  have hb := blocks_of_wf kids ds hw
+  rw [show (List.map elName (xencKids kids ds)).eraseDups = ds.map (·.name) by
+    rw [xencKids_flatMap]; exact names_blocks _ _ hb]
+  exact mapM_map_some ds (·.name) _ hall
+
+
+theorem DN.name_mk (n : Tok) (k : List DN) (v : List Bytes) : (DN.mk n k v).name = n := rfl
+theorem DN.kids_mk (n : Tok) (k : List DN) (v : List Bytes) : (DN.mk n k v).kids = k := rfl
+
+/-- the reader's treatment of one list entry element -/
+def xdecEntry (ck : List (SN τ)) (f : Nat) (key : Tok) (x : X) : Option DN := do
+  let ks ← xdecKids ck f (elKids x)
+  let kv ← (ks.find? fun (d : DN) => d.name = key).bind fun d => d.vals.head?
+  pure (DN.mk kv ks [])
+
+mutual
+theorem xdec_all (kids : List (SN τ)) : ∀ (ds : List DN), xwfKids kids ds → ∀ (f : Nat), dDepthL ds ≤ f →
+    ∀ (xs : List X), (∀ d ∈ ds, gather d.name xs = xblock kids d) →
+    ∀ d ∈ ds, xdecOne kids f xs d.name = some d
+  | [], _, _, _, _, _, d, hd => nomatch hd
+  | a :: r, hw, f, hf, xs, hg, d, hd => by
+    rw [xwfKids.eq_def] at hw
+    obtain ⟨h1, h2, h3⟩ := hw
+    rw [dDepthL] at hf
+    rcases List.mem_cons.mp hd with heq | hr
+    · subst heq
+      have hga := hg d (by simp)
+      cases d with
+      | mk n dk vals =>
+        unfold xdecOne
+        simp only [DN.name_mk] at h2 hga ⊢
+        rw [hga]
+        unfold xblock
+        simp only [DN.name_mk]
+        cases hl : lookup n (dataKids kids) with
+        | none => simp [hl] at h2
+        | some sn =>
+          cases sn with
+          | container cn cp ck =>
+            simp only [hl] at h2
+            obtain ⟨hv, hk⟩ := h2
+            subst hv
+            rw [dDepth] at hf
+            cases f with
+            | zero => omega
+            | succ f' =>
+              have hall := xdec_all ck dk hk f' (by omega) (xencKids ck dk)
+                (fun e he => by rw [xencKids_flatMap]; exact gather_blocks _ _ (blocks_of_wf ck dk hk) e he)
+              have hwhole := xdec_whole ck dk f' hk hall
+              simp [elKids, hwhole]
+          | list ln keys mn mx us ck =>
+            simp only [hl] at h2
+            obtain ⟨hv, _, he⟩ := h2
+            subst hv
+            rw [dDepth] at hf
+            have hent := xdec_entries ck (keys.headD []) n dk he f (by omega)
+            simp only [xencEntries_map]
+            unfold xdecEntry at hent
+            rw [hent]
+            rfl
+          | leaf fn ty fd fm =>
+            simp only [hl] at h2
+            obtain ⟨hk, v, hv⟩ := h2
+            subst hk; subst hv
+            simp [elText]
+          | leafList fn ty mn mx =>
+            simp only [hl] at h2
+            obtain ⟨hk, _⟩ := h2
+            subst hk
+            simp [List.map_map, Function.comp_def, elText]
+          | choice a b c e => simp [hl] at h2
+          | case a b => simp [hl] at h2
+    · exact xdec_all kids r h3 f (by omega) xs (fun e he => hg e (by simp [he])) d hr
+theorem xdec_entries (ck : List (SN τ)) (key n : Tok) : ∀ (es : List DN), xwfEntries ck key es →
+    ∀ (g : Nat), dDepthL es ≤ g →
+    (es.map fun e => X.el n [] (xencKids ck e.kids)).mapM (xdecEntry ck g key) = some es
+  | [], _, _, _ => rfl
+  | .mk en ek ev :: r, hw, g, hg => by
+    rw [xwfEntries.eq_def] at hw
+    obtain ⟨hv, hk, hkey, hr⟩ := hw
+    subst hv
+    rw [dDepthL, dDepth] at hg
+    cases g with
+    | zero => omega
+    | succ g' =>
+      have hall := xdec_all ck ek hk g' (by omega) (xencKids ck ek)
+        (fun e he => by rw [xencKids_flatMap]; exact gather_blocks _ _ (blocks_of_wf ck ek hk) e he)
+      have hwhole := xdec_whole ck ek g' hk hall
+      have hrest := xdec_entries ck key n r hr (g' + 1) (by omega)
+      simp only [List.map_cons, List.mapM_cons, DN.kids_mk]
+      rw [hrest]
+      simp only [xdecEntry, elKids, hwhole]
+      unfold keyOf at hkey
+      simp [hkey]
+end
 
 end YV.E
